@@ -33,4 +33,12 @@ PROPS = {
         ],
         "notes": ["Proposer().Accum of a copy aliases the original's validator object (only the address is compared); observed as address only"],
     },
+    "C03": {
+        "props_file": "Props/C03.v",
+        "engines": [{"name": "signer", "n_quick": 300, "n_thorough": 6000}],
+        "level_text": "Coq theorems over an executable model of PrivValidator.signBytesHRS/save with crash points of WriteFileAtomic, failing writes and reloads, for every request history: no two different sign-bytes released for one height/round/step, released signatures monotone in (height, round, step), a signature is released only once its record is durable, memory and file agree after every operation. Tied to /repo by differential runs on a real signer file with verif failpoints (process death simulated by panicking out of WriteFileAtomic and reloading), non-writable .new/.bak, and monitors on the released set and on the file.",
+        "level_note": "signature function a parameter (deterministic ed25519); process death is the crash model - power loss with un-synced page cache (no fsync in WriteFileAtomic) is runtime behaviour the model does not exhibit; the consensus-level half (replay mode, who asks for signatures) is covered under C01/C07",
+        "assumptions": ["rename(2) atomic; a crash means the process dies (no torn writes of the signer file)"],
+        "notes": [],
+    },
 }
